@@ -4,6 +4,8 @@ import (
 	"fmt"
 	"hash/fnv"
 	"math/rand"
+	"os"
+	"path/filepath"
 	"sort"
 	"strings"
 
@@ -150,6 +152,7 @@ var optDefs = []optDef{
 	{"with-expand", "server client model", fixed("--with-expand")},
 	{"implementation-package", "server", fixed("--implementation-package", "vfmod/mod/internal/impl")},
 	{"template=stratoscale", "server client support", fixed("--template", "stratoscale")},
+	{"config-file=layout", "server support", func(ResolveCtx) []string { return []string{"-C", filepath.Join(LayoutDir, "server-layout.yml")} }},
 	{"skip-validation", "server client model", fixed("--skip-validation")},
 	{"keep-spec-order", "server model", fixed("--keep-spec-order")},
 	{"default-scheme=https", "server", fixed("--default-scheme", "https")},
@@ -162,11 +165,77 @@ var optDefs = []optDef{
 	{"skip-url-builder", "operation", fixed("--skip-url-builder")},
 }
 
+// LayoutDir is where the executor keeps the configuration files of the config-file options
+// (set by the check before any history is resolved).
+var LayoutDir = "."
+
+// ServerLayout is a --config-file that spells out the built-in server layout, the way the
+// template documentation tells users to start a custom layout: the configure file is the
+// user's, hence skip_exists: true.
+const ServerLayout = `layout:
+  application:
+    - name: configure
+      source: asset:serverConfigureapi
+      target: '{{ joinFilePath .Target (toPackagePath .ServerPackage) }}'
+      file_name: 'configure_{{ (snakize (pascalize .Name)) }}.go'
+      skip_exists: true
+    - name: main
+      source: asset:serverMain
+      target: '{{ joinFilePath .Target "cmd" .MainPackage }}'
+      file_name: 'main.go'
+    - name: embedded_spec
+      source: asset:swaggerJsonEmbed
+      target: '{{ joinFilePath .Target (toPackagePath .ServerPackage) }}'
+      file_name: 'embedded_spec.go'
+    - name: server
+      source: asset:serverServer
+      target: '{{ joinFilePath .Target (toPackagePath .ServerPackage) }}'
+      file_name: 'server.go'
+    - name: builder
+      source: asset:serverBuilder
+      target: '{{ joinFilePath .Target (toPackagePath .ServerPackage) (toPackagePath .APIPackage) }}'
+      file_name: '{{ snakize (pascalize .Name) }}_api.go'
+    - name: doc
+      source: asset:serverDoc
+      target: '{{ joinFilePath .Target (toPackagePath .ServerPackage) }}'
+      file_name: 'doc.go'
+  models:
+    - name: definition
+      source: asset:model
+      target: '{{ joinFilePath .Target (toPackagePath .ModelPackage) }}'
+      file_name: '{{ (snakize (pascalize .Name)) }}.go'
+  operations:
+    - name: parameters
+      source: asset:serverParameter
+      target: '{{ if .UseTags }}{{ joinFilePath .Target (toPackagePath .ServerPackage) (toPackagePath .APIPackage) (toPackagePath .Package) }}{{ else }}{{ joinFilePath .Target (toPackagePath .ServerPackage) (toPackagePath .Package) }}{{ end }}'
+      file_name: '{{ (snakize (pascalize .Name)) }}_parameters.go'
+    - name: urlbuilder
+      source: asset:serverUrlbuilder
+      target: '{{ if .UseTags }}{{ joinFilePath .Target (toPackagePath .ServerPackage) (toPackagePath .APIPackage) (toPackagePath .Package) }}{{ else }}{{ joinFilePath .Target (toPackagePath .ServerPackage) (toPackagePath .Package) }}{{ end }}'
+      file_name: '{{ (snakize (pascalize .Name)) }}_urlbuilder.go'
+    - name: responses
+      source: asset:serverResponses
+      target: '{{ if .UseTags }}{{ joinFilePath .Target (toPackagePath .ServerPackage) (toPackagePath .APIPackage) (toPackagePath .Package) }}{{ else }}{{ joinFilePath .Target (toPackagePath .ServerPackage) (toPackagePath .Package) }}{{ end }}'
+      file_name: '{{ (snakize (pascalize .Name)) }}_responses.go'
+    - name: handler
+      source: asset:serverOperation
+      target: '{{ if .UseTags }}{{ joinFilePath .Target (toPackagePath .ServerPackage) (toPackagePath .APIPackage) (toPackagePath .Package) }}{{ else }}{{ joinFilePath .Target (toPackagePath .ServerPackage) (toPackagePath .Package) }}{{ end }}'
+      file_name: '{{ (snakize (pascalize .Name)) }}.go'
+`
+
+// WriteLayouts creates the configuration files under LayoutDir.
+func WriteLayouts() error {
+	if err := os.MkdirAll(LayoutDir, 0o755); err != nil {
+		return err
+	}
+	return os.WriteFile(filepath.Join(LayoutDir, "server-layout.yml"), []byte(ServerLayout), 0o644)
+}
+
 // exclusive option groups: at most one member per step
 var exclusive = [][]string{
 	{"A=other", "A=title"},
 	{"flatten=full", "with-expand"},
-	{"implementation-package", "template=stratoscale", "regenerate-configureapi"},
+	{"implementation-package", "template=stratoscale", "regenerate-configureapi", "config-file=layout"},
 	{"skip-handler", "skip-parameters", "skip-responses"}, // all three together render nothing
 	{"skip-models", "M", "M=unknown"},
 	{"skip-operations", "O", "tags", "tags=unknown"},
@@ -373,7 +442,7 @@ func Catalogue(full bool) []History {
 				if g.cmd == "cli" && g.opt != "" && prior != "client+edits" {
 					continue // generate cli is ten times dearer than the other targets
 				}
-				if prior == "empty+user-files" && g.opt != "" && !strings.Contains("A=other A=title s=pkg m=pkg a=pkg c=pkg main-package skip-tag-packages implementation-package cli-app-name", g.opt) {
+				if prior == "empty+user-files" && g.opt != "" && !strings.Contains("A=other A=title s=pkg m=pkg a=pkg c=pkg main-package skip-tag-packages implementation-package cli-app-name config-file=layout", g.opt) {
 					continue // quick tier: only the options that move files
 				}
 			}
@@ -432,6 +501,29 @@ func Catalogue(full bool) []History {
 			}
 		}
 	}
+	// 3b. the same optioned command before and after the spec changes: the regeneration a user
+	// who settled on an option really runs
+	for oi, o := range []string{"implementation-package", "template=stratoscale", "skip-tag-packages", "A=other", "main-package", "strict-responders", "principal", "flag-strategy=pflag", "exclude-spec", "keep-spec-order"} {
+		for ei, e := range []string{"gain-op", "lose-op", "gain-def", "retitle"} {
+			if !full && (ei > 0 || oi > 3) && !(ei == 1 && oi == 0) {
+				continue
+			}
+			s := gen("server", o)
+			s.Sel = oi
+			s2 := s
+			add("spec:"+e+"/same-opts", "generated-with-"+o+"+"+e, []Step{s, user("bundle", oi+ei), specS(e, oi+ei), s2})
+		}
+	}
+	for oi, o := range []string{"c=pkg", "skip-tag-packages", "template=stratoscale", "A=other"} {
+		for ei, e := range []string{"gain-op", "lose-op"} {
+			if !full && (ei > 0 || oi > 1) {
+				continue
+			}
+			s := gen("client", o)
+			s.Sel = oi
+			add("spec:"+e+"/same-opts", "generated-with-"+o+"+"+e, []Step{s, user("bundle", oi+ei), specS(e, oi+ei), s})
+		}
+	}
 	// 4. every user action between two generations of the same kind
 	for ui, a := range UserActs() {
 		for _, cmd := range []string{"server", "client", "cli"} {
@@ -454,6 +546,8 @@ func Catalogue(full bool) []History {
 	add("gen:server/A=title", "two-apps", []Step{gen("server", "A=title"), user("edit-configure", 0), specS("retitle", 0), gen("server", "A=title"), gen("server", "A=title", "regenerate-configureapi")})
 	add("gen:support/-", "support-first", []Step{gen("support"), user("edit-configure", 0), gen("server"), gen("support")})
 	add("gen:server/implementation-package", "configure-exists", []Step{gen("server"), user("edit-configure", 0), gen("server", "implementation-package"), gen("server")})
+	add("gen:server/config-file=layout", "configure-exists", []Step{gen("server", "config-file=layout"), user("edit-configure", 0), gen("server", "config-file=layout"), specS("gain-op", 0), gen("server", "config-file=layout")})
+	add("gen:support/config-file=layout", "configure-exists", []Step{gen("server", "config-file=layout"), user("edit-configure", 1), gen("support", "config-file=layout")})
 	add("gen:server/template=stratoscale", "configure-exists", []Step{gen("server"), user("edit-configure", 0), gen("server", "template=stratoscale"), gen("server")})
 	return hs
 }
